@@ -547,3 +547,11 @@ func vfOrdered(rows []vfRow, cols []string, reverse bool) int {
 	}
 	return -1
 }
+
+// vfHasNode reports whether the tree (including view definitions) has a node satisfying f.
+func vfHasNode(n *vfNode, f func(*vfNode) bool) bool {
+	if n == nil {
+		return false
+	}
+	return f(n) || vfHasNode(n.src, f) || vfHasNode(n.src2, f) || vfHasNode(n.def, f)
+}
